@@ -66,7 +66,11 @@ class AndroidEntity(Entity):
 
     def wrap(self, raw_val):
         clone = self.node.cloneNode(True)
-        if clone.childNodes.length == 1:
+        if clone.childNodes.length == 0:
+            # The reference string is empty, add a text node for the value.
+            child = clone.ownerDocument.createTextNode("")
+            clone.appendChild(child)
+        elif clone.childNodes.length == 1:
             child = clone.childNodes[0]
         else:
             for child in clone.childNodes:
